@@ -6,6 +6,7 @@
 package qbft
 
 import (
+	"strings"
 	"fmt"
 	"hash/fnv"
 	"os"
@@ -480,6 +481,9 @@ func runRandom(rt *rapid.T, cfg caseCfg, fixed fixedAdversary) outcome {
 		}
 	}
 
+	if dbg := os.Getenv("VERIF_DBG_TRACE"); dbg != "" && strings.Contains(strings.Join(trace, "\n"), dbg) {
+		fmt.Fprintf(os.Stderr, "==== case n=%d byz=%v offset=%d decisions=%v\n%s\n", n, byzs, cfg.offset, out.decisions, joinTrace(trace))
+	}
 	var nontrivial bool
 	if cfg.oracle == "C02" {
 		nontrivial = out.roundChanges > 0 || out.advAccepted > 0 || out.dropsDups > 0
